@@ -557,19 +557,26 @@ class Gen:
         raise ValueError(t)
 
     # ---- script-side values to write / pass
-    def literal_for(self, t, good=True, depth=0):
-        """a script literal meant for a Go location of type t; good=False: deliberately mismatching"""
+    def literal_for(self, t, good=True, depth=0, st=None):
+        """a script literal meant for a Go location of type t; good=False: deliberately mismatching.
+        Go iterates script maps in random order, so a literal carries at most ONE element that can fail to convert
+        (st["hz"]); when every element fails anyway (named scalar types) maps get at most one entry (st["single"])."""
         rng = self.rng
+        if st is None:
+            st = {"hz": 1, "single": type_has(t, lambda x: x[0] in ("named", "struct", "time"))}
+            if st["single"]:
+                st["hz"] = 0
         k = t[0]
         if not good:
             return rng.choice([("s", b"x"), ("l", [("i", 1)]), ("m", [(b"a", ("i", 1))]), ("b", True), ("f", 0x3FF8000000000000),
                                ("nil",), ("i", 5)])
         if k == "named":
-            return self.literal_for(t[2], good, depth)
+            return self.literal_for(t[2], good, depth, st)
         if k == "int":
             lo, hi = irange(t[1])
             r = rng.below(10)
-            if r == 0:
+            if r == 0 and st["hz"] > 0:
+                st["hz"] -= 1
                 return ("i", rng.choice([hi + 1 if hi < 2 ** 63 - 1 else 300, lo - 1 if lo > -2 ** 63 else -300, 300, -1]))   # may not fit
             if r == 1:
                 return ("f", rng.choice([0x4000000000000000, 0x3FF8000000000000, 0xC008000000000000]))  # 2.0 1.5 -3.0
@@ -585,37 +592,55 @@ class Gen:
         if k == "str":
             return ("s", rng.choice([b"", b"w", b"hello there", b"\xc3\xa9"]))
         if k == "time":
-            return ("s", b"2020-01-01T00:00:00Z") if rng.chance(1, 3) else ("i", 5)
+            if st["hz"] > 0:
+                st["hz"] -= 1
+                return ("s", b"2020-01-01T00:00:00Z") if rng.chance(1, 3) else ("i", 5)
+            return ("s", b"2020-01-01T00:00:00Z")
         if k == "iface":
             return rng.choice([("i", 7), ("s", b"q"), ("nil",), ("l", [("i", 1), ("s", b"a"), ("nil",)]), ("m", [(b"k", ("f", F15))]), ("b", False),
                                ("y", 9), ("f", F15)])
         if k == "ptr":
-            if rng.chance(1, 4):
+            if rng.chance(1, 4) and (depth == 0 or st["hz"] > 0):
+                if depth > 0:
+                    st["hz"] -= 1
                 return ("nil",)
-            return self.literal_for(t[1], good, depth + 1)
+            return self.literal_for(t[1], good, depth + 1, st)
         if k == "slice":
             if t[1] == ("int", "uint8") and rng.chance(2, 3):
                 return rng.choice([("bs", [1, 2, 255]), ("s", b"hi")])
             if t[1] == ("f64",) and rng.chance(2, 3):
                 return ("fs", [F15, 0])
-            if rng.chance(1, 6):
+            if rng.chance(1, 6) and (depth == 0 or st["hz"] > 0):
+                if depth > 0:
+                    st["hz"] -= 1
                 return ("nil",)
             n = rng.below(4)
-            items = [self.literal_for(t[1], True, depth + 1) for _ in range(n)]
-            if items and rng.chance(1, 6):
+            items = [self.literal_for(t[1], True, depth + 1, st) for _ in range(n)]
+            if items and rng.chance(1, 6) and st["hz"] > 0:
+                st["hz"] -= 1
                 items[rng.below(len(items))] = ("nil",)
             return ("l", items)
         if k == "array":
             n = rng.choice([t[1], t[1], t[1], max(0, t[1] - 1), t[1] + 1])
-            return ("l", [self.literal_for(t[2], True, depth + 1) for _ in range(n)])
+            if n > t[1]:
+                if st["hz"] > 0:
+                    st["hz"] -= 1
+                else:
+                    n = t[1]
+            return ("l", [self.literal_for(t[2], True, depth + 1, st) for _ in range(n)])
         if k == "map":
-            if rng.chance(1, 6):
+            if rng.chance(1, 6) and (depth == 0 or st["hz"] > 0):
+                if depth > 0:
+                    st["hz"] -= 1
                 return ("nil",)
             keys = [b"a", b"zz", b""]
-            items = [(keys[i], self.literal_for(t[1], True, depth + 1)) for i in range(rng.below(3))]
-            if items and rng.chance(1, 6):
-                # one entry only: Go iterates the script map in random order, two failing entries would race
-                items = [(items[0][0], ("nil",))]
+            n = rng.below(3)
+            if st["single"]:
+                n = min(n, 1)
+            items = [(keys[i], self.literal_for(t[1], True, depth + 1, st)) for i in range(n)]
+            if items and rng.chance(1, 6) and st["hz"] > 0:
+                st["hz"] -= 1
+                items[0] = (items[0][0], ("nil",))
             return ("m", items)
         if k == "struct":
             fs = t[2]
@@ -623,7 +648,7 @@ class Gen:
             if fs and rng.chance(5, 6):
                 # one field only: Go iterates the script map in random order, two failing fields would race
                 n, ft = rng.choice(fs)
-                items.append((n, self.literal_for(ft, True, depth + 1)))
+                items.append((n, self.literal_for(ft, True, depth + 1, st)))
             if rng.chance(1, 5):
                 items.append((b"Nope", ("i", 1)))
             return ("m", items)
@@ -672,18 +697,22 @@ def under(t):
     return t[2] if t[0] == "named" else t
 
 
-def widen(t, v):
-    """canonical description of what result.Interface() must be for the Go value v : t ("equal modulo widening"):
+def widen(t, v, direct=False):
+    """[direct]: the value is read from a struct field or returned by a method (converter from getTypeConverter:
+    a uint8 is an int there, a struct or time.Time field is read through a pointer to the field)
+    canonical description of what result.Interface() must be for the Go value v : t ("equal modulo widening"):
     ints -> int64 (byte stays uint8 when it travels as a byte), floats -> float64, slices/arrays -> []interface{},
     maps -> map[string]interface{}, pointers to non-structs -> the pointee, structs -> pointer to an equal struct"""
     u = under(t)
     k = u[0]
+    if v[0] == "raw":
+        return v[1]
     if v[0] == "nil" and k in ("ptr", "iface"):
-        if k == "ptr" and under(u[1])[0] == "struct":
-            return "dyn(%s;nil)" % tstr(t if t[0] != "named" else t)
+        if k == "ptr" and under(u[1])[0] in ("struct", "time"):
+            return "dyn(%s;nil)" % tstr(t)
         return "nil"
     if k == "int":
-        if u[1] == "uint8" and t[0] != "named":
+        if u[1] == "uint8" and t[0] != "named" and not direct:
             return "dyn(uint8;i:%d)" % v[1]
         return "dyn(int64;i:%d)" % v[1]
     if k == "bool":
@@ -693,18 +722,20 @@ def widen(t, v):
     if k == "str":
         return "dyn(string;s:%s)" % v[1].hex()
     if k == "time":
+        if direct == "field":
+            return "dyn(*time;ref(t:%d))" % v[1]
         return "dyn(time;t:%d)" % v[1]
     if k == "iface":
         return widen(v[1], v[2])
     if k == "ptr":
-        if under(u[1])[0] == "struct":
-            return "dyn(%s;ref(%s))" % (tstr(u), plain(v[1]))
+        if under(u[1])[0] in ("struct", "time"):
+            return "dyn(%s;ref(%s))" % (tstr(t), plain(v[1]))
         return widen(u[1], v[1])
     if k == "slice":
         if t == ("slice", ("int", "uint8")):
-            return "dyn([]uint8;sl[%s])" % ",".join("i:%d" % x[1] for x in (v[1] if v[0] != "nil" else []))
+            return "dyn([]uint8;%s)" % ("nil" if v[0] == "nil" else "sl[%s]" % ",".join("i:%d" % x[1] for x in v[1]))
         if t == ("slice", ("f64",)):
-            return "dyn([]float64;sl[%s])" % ",".join("f:%016x" % x[1] for x in (v[1] if v[0] != "nil" else []))
+            return "dyn([]float64;%s)" % ("nil" if v[0] == "nil" else "sl[%s]" % ",".join("f:%016x" % x[1] for x in v[1]))
         items = v[1] if v[0] != "nil" else []
         return "dyn([]iface;sl[%s])" % ",".join(widen(u[1], x) for x in items)
     if k == "array":
@@ -747,6 +778,8 @@ def tstr(t):
 def plain(v):
     """canonical description of a Go value tree (as descGo prints it)"""
     k = v[0]
+    if k == "raw":
+        return v[1]
     if k == "nil":
         return "nil"
     if k == "b":
@@ -760,7 +793,7 @@ def plain(v):
     if k == "t":
         return "t:%d" % v[1]
     if k == "box":
-        return ("ref(%s)" if v[1][0] == "st" else "box(%s)") % plain(v[1])
+        return ("ref(%s)" if v[1][0] in ("st", "t") else "box(%s)") % plain(v[1])
     if k == "sl":
         return "sl[" + ",".join(plain(x) for x in v[1]) + "]"
     if k == "arr":
@@ -797,22 +830,22 @@ def ints_in(v, t, out):
 
 
 def expect_go(t, o):
-    """the Go value (description) a script literal o stands for in a location of type t when it is representable
-    there exactly; None = not representable / not decided by this oracle"""
+    """the Go value (a value tree typed by t) a script literal o stands for in a location of type t when it is
+    representable there exactly; None = not representable / not decided by this oracle"""
     u = under(t)
     k = u[0]
     ok = o[0]
     if k == "int":
         if ok in ("i", "y"):
             lo, hi = irange(u[1])
-            return ("i:%d" % o[1]) if lo <= o[1] <= hi else None
+            return ("i", o[1]) if lo <= o[1] <= hi else None
         if ok == "f":
             f = struct.unpack(">d", struct.pack(">Q", o[1]))[0]
-            if f == int(f) and irange(u[1])[0] <= int(f) <= irange(u[1])[1]:
-                return "i:%d" % int(f)
+            if f == f and abs(f) < 2 ** 62 and f == int(f) and irange(u[1])[0] <= int(f) <= irange(u[1])[1]:
+                return ("i", int(f))
         return None
     if k == "bool":
-        return ("b:true" if o[1] else "b:false") if ok == "b" else None
+        return ("b", o[1]) if ok == "b" else None
     if k in ("f32", "f64"):
         if ok == "f":
             if k == "f32":
@@ -823,56 +856,53 @@ def expect_go(t, o):
                     return None
                 if g != f:
                     return None
-            return "f:%016x" % o[1]
+            return ("f", o[1])
         if ok in ("i", "y") and abs(o[1]) < 2 ** 24:
-            return "f:%016x" % struct.unpack(">Q", struct.pack(">d", float(o[1])))[0]
+            return ("f", struct.unpack(">Q", struct.pack(">d", float(o[1])))[0])
         return None
     if k == "str":
-        return ("s:" + o[1].hex()) if ok == "s" else None
+        return ("s", o[1]) if ok == "s" else None
     if k == "iface":
         if ok == "nil":
-            return "nil"
+            return ("nil",)
         if ok == "i":
-            return "dyn(int64;i:%d)" % o[1]
+            return ("dyn", ("int", "int64"), ("i", o[1]))
         if ok == "s":
-            return "dyn(string;s:%s)" % o[1].hex()
+            return ("dyn", ("str",), ("s", o[1]))
         if ok == "b":
-            return "dyn(bool;b:%s)" % ("true" if o[1] else "false")
+            return ("dyn", ("bool",), ("b", o[1]))
         if ok == "f":
-            return "dyn(float64;f:%016x)" % o[1]
+            return ("dyn", ("f64",), ("f", o[1]))
         if ok == "y":
-            return "dyn(uint8;i:%d)" % o[1]
+            return ("dyn", ("int", "uint8"), ("i", o[1]))
         return None
     if k == "ptr":
         if ok == "nil":
-            return "nil"
-        if under(u[1])[0] == "struct":
-            e = expect_go(u[1], o)
-            return ("ref(%s)" % e) if e is not None else None
+            return ("nil",)
         e = expect_go(u[1], o)
-        return ("box(%s)" % e) if e is not None else None
+        return ("box", e) if e is not None else None
     if k == "slice":
         if ok == "nil":
-            return "nil"
+            return ("nil",)
         if ok == "bs" and under(u[1]) == ("int", "uint8"):
-            return "sl[" + ",".join("i:%d" % x for x in o[1]) + "]"
+            return ("sl", [("i", x) for x in o[1]])
         if ok == "fs" and under(u[1]) == ("f64",):
-            return "sl[" + ",".join("f:%016x" % x for x in o[1]) + "]"
+            return ("sl", [("f", x) for x in o[1]])
         if ok == "l":
             items = [expect_go(u[1], x) for x in o[1]]
-            return None if any(i is None for i in items) else "sl[" + ",".join(items) + "]"
+            return None if any(i is None for i in items) else ("sl", items)
         return None
     if k == "array":
         if ok == "l" and len(o[1]) == u[1]:
             items = [expect_go(u[2], x) for x in o[1]]
-            return None if any(i is None for i in items) else "arr[" + ",".join(items) + "]"
+            return None if any(i is None for i in items) else ("arr", items)
         return None
     if k == "map":
         if ok == "nil":
-            return "nil"
+            return ("nil",)
         if ok == "m":
             items = [(kk, expect_go(u[1], x)) for kk, x in o[1]]
-            return None if any(i[1] is None for i in items) else "map{" + ",".join(sorted(kk.hex() + "=" + e for kk, e in items)) + "}"
+            return None if any(i[1] is None for i in items) else ("map", items)
         return None
     if k == "struct":
         if ok == "m":
@@ -887,10 +917,60 @@ def expect_go(t, o):
                         return None
                     items.append(e)
                 else:
-                    items.append(plain_zero(ft))
-            return "st{" + ",".join(items) + "}"
+                    items.append(zero_tree(ft))
+            return ("st", items)
         return None
     return None
+
+
+def zero_tree(t):
+    u = under(t)
+    k = u[0]
+    if k == "int":
+        return ("i", 0)
+    if k == "bool":
+        return ("b", False)
+    if k in ("f32", "f64"):
+        return ("f", 0)
+    if k == "str":
+        return ("s", b"")
+    if k == "time":
+        return ("t", 0)
+    if k in ("iface", "ptr", "slice", "map"):
+        return ("nil",)
+    if k == "array":
+        return ("arr", [zero_tree(u[2]) for _ in range(u[1])])
+    if k == "struct":
+        return ("st", [zero_tree(ft) for _, ft in u[2]])
+    raise ValueError(t)
+
+
+def norm_tree(t, v):
+    """what a Go value looks like after a trip through the script and back: nil slices and maps come back empty,
+    a nil []byte / []float64 stays nil (the script object wraps the Go slice itself)"""
+    u = under(t)
+    k = u[0]
+    if k == "iface" and v[0] == "dyn":
+        # through interface{} the value comes back dynamically typed: the documented widening
+        return ("raw", widen(v[1], v[2]))
+    if v[0] == "nil":
+        if k == "slice" and t not in (("slice", ("int", "uint8")), ("slice", ("f64",))):
+            return ("sl", [])
+        if k == "map":
+            return ("map", [])
+        return v
+    if k == "ptr" and under(u[1])[0] not in ("struct", "time"):
+        inner = norm_tree(u[1], v[1])
+        if inner == ("nil",) and under(u[1])[0] in ("ptr", "iface"):
+            return ("nil",)      # pointers are transparent in the script: a pointer to a nil pointer/interface is nil
+        return ("box", inner)
+    if k == "slice":
+        return ("sl", [norm_tree(u[1], x) for x in v[1]])
+    if k == "array":
+        return ("arr", [norm_tree(u[2], x) for x in v[1]])
+    if k == "map":
+        return ("map", [(kk, norm_tree(u[1], x)) for kk, x in v[1]])
+    return v
 
 
 def plain_zero(t):
@@ -1061,6 +1141,21 @@ def lit_has_nil_inside(o, top=True):
     return False
 
 
+def tree_has_nil_inside(v, top=True):
+    k = v[0]
+    if k == "nil":
+        return not top
+    if k == "box":
+        return tree_has_nil_inside(v[1], False)
+    if k in ("sl", "arr", "st"):
+        return any(tree_has_nil_inside(x, False) for x in v[1])
+    if k == "map":
+        return any(tree_has_nil_inside(x, False) for _, x in v[1])
+    if k == "dyn":
+        return tree_has_nil_inside(v[2], False)
+    return False
+
+
 def type_has(t, pred):
     if pred(t):
         return True
@@ -1098,11 +1193,12 @@ def classify(case):
         lits += [a[1] for a in s[3] if a[0] == "lit"]
     if any(type_has(t, lambda x: x[0] == "array") for t in targets):
         cls.add("array-length")
-    if any(lit_has_nil_inside(l) for l in lits) or (s[0] == "set" and s[3][0] != "lit"):
+    if any(lit_has_nil_inside(l) for l in lits) or (s[0] == "set" and s[3][0] != "lit"
+                                                    and tree_has_nil_inside(case["meta"].get("from_go", ("b", True)))):
         cls.add("nil-element")
-    if s[0] == "set" and any(type_has(t, lambda x: x[0] == "struct") for t in targets):
+    if s[0] == "set" and any(type_has(t, lambda x: x[0] in ("struct", "time")) for t in targets):
         cls.add("struct-field")
-    if any(type_has(t, lambda x: x[0] == "ptr" and x[1][0] == "named") for t in targets):
+    if any(type_has(t, lambda x: x[0] == "ptr" and x[1][0] in ("named", "iface")) for t in targets):
         cls.add("ptr-to-named")
     if any(type_has(t, lambda x: x[0] == "ptr" and under(x[1])[0] in ("ptr", "iface", "slice", "map")) for t in targets):
         cls.add("nil-element")
@@ -1120,3 +1216,257 @@ def classify(case):
     if any(k in ("uint", "uint64") and z > 2 ** 63 - 1 for k, z in ints):
         cls.add("uint64-wrap")
     return cls
+
+
+# ------------------------------------------------------------------ the check
+
+PANIC_FAMILIES = {
+    "named-scalar": ("interface conversion: interface {} is ", "is not assignable to type", "reflect: Call using "),
+    "untyped-nil": ("invalid memory address or nil pointer dereference",),
+    "array-length": ("array index out of range",),
+    "nil-element": ("on zero Value", "reflect: New(nil)", "reflect.Set: value of type", "reflect: Call using zero Value"),
+    "struct-field": ("is not assignable to type",),
+    "ptr-to-named": ("is not assignable to type", "reflect: Call using "),
+    "unsupported-type": ("invalid global provided",),
+}
+
+
+def oracle(case, g):
+    """judge one observation of the implementation; returns list of (aspect, why, known_class or None)"""
+    viol = []
+    kind = case["kind"]
+    meta = case["meta"]
+    cls = classify(case)
+    out = g["outcome"]
+    if out in ("panic", "escaped"):
+        raw = g.get("raw", "")
+        k = None
+        for c in sorted(cls | ({"unsupported-type"} if meta.get("unsupported") else set())):
+            if c in PANIC_FAMILIES and any(f in raw for f in PANIC_FAMILIES[c]):
+                k = c
+                break
+        where = "in the caller of Eval" if out == "escaped" else "inside the VM (recovered)"
+        viol.append(("no-panic", "conversion panicked %s: %s" % (where, raw[:160]), k))
+        return viol
+    if out != "ok":
+        return viol
+    if kind == "global" and "t" in meta:
+        want = widen(meta["t"], meta["v"])
+        if g.get("iface") != want:
+            viol.append(("faithful", "result.Interface() of the global is %s, the Go value is %s" % (g.get("iface"), want),
+                         "uint64-wrap" if "uint64-wrap" in cls else None))
+    elif kind == "field":
+        ft = meta["ft"]
+        want = widen(ft, meta["fv"], direct="field" if under(ft)[0] in ("time",) else True)
+        if g.get("iface") != want:
+            viol.append(("faithful", "the field reads as %s, the Go value is %s" % (g.get("iface"), want),
+                         "uint64-wrap" if "uint64-wrap" in cls else None))
+    elif kind == "ret":
+        want = widen(meta["t"], meta["v"], direct=True)
+        if g.get("iface") != want:
+            viol.append(("faithful", "the method result reads as %s, the Go value is %s" % (g.get("iface"), want),
+                         "uint64-wrap" if "uint64-wrap" in cls else None))
+    elif kind == "set":
+        ft = meta["ft"]
+        e = None
+        if "lit" in meta:
+            e = expect_go(ft, meta["lit"])
+        elif "from_go" in meta:
+            e = norm_tree(ft, meta["from_go"])
+        if e is not None:
+            cell_t = case["cells"][0][0]
+            if meta.get("through_copy"):
+                # c0.F0[0].A = lit ; c0.F0[0].A : must read back what was written
+                want = widen(ft, e, direct=True)
+                if g.get("iface") != want:
+                    viol.append(("reads-back", "a field written through %s reads back as %s, written %s"
+                                 % (x_src(case["script"][1]), g.get("iface"), want), "copy-proxy"))
+            else:
+                others = [plain(v) for (n, _), v in zip(cell_t[2], case["cells"][0][1][1]) if n != FIELD]
+                idx = [n for n, _ in cell_t[2]].index(FIELD)
+                fields = others[:idx] + [plain(e)] + others[idx:]
+                want_cell = "st{" + ",".join(fields) + "}"
+                vcls = "uint64-wrap" if "uint64-wrap" in cls else ("nil-element" if "nil-element" in cls else None)
+                if g["cells"][0] != want_cell:
+                    viol.append(("go-side", "after `%s` the Go struct is %s, expected %s" % (meta.get("src", "set"), g["cells"][0], want_cell), vcls))
+                want = widen(ft, e, direct="field" if under(ft)[0] == "time" else True)
+                if g.get("iface") != want:
+                    viol.append(("reads-back", "the field reads back as %s, written %s" % (g.get("iface"), want), vcls))
+    elif kind == "call":
+        params = case["script"][2]
+        lits = meta["lits"]
+        if len(lits) >= len(params):
+            es = [expect_go(pt, l) if l[0] != "nil" or under(pt)[0] in ("ptr", "slice", "map", "iface") else None
+                  for pt, l in zip(params, lits)]
+            if all(e is not None for e in es):
+                want = []
+                for pt, e in zip(params, es):
+                    if under(pt)[0] == "iface":
+                        want.append("iface;nil" if e[0] == "nil" else "%s;%s" % (tstr(e[1]), plain(e[2])))
+                    else:
+                        want.append("%s;%s" % (tstr(pt), plain(e)))
+                if g["got"] != want:
+                    viol.append(("args-exact", "the method received %s, the script passed %s" % (g["got"], want),
+                                 "nil-element" if "nil-element" in cls else None))
+    return viol
+
+
+def run(res):
+    obs, err = C.go_build("c08obs")
+    if not obs:
+        res.violation({"property": PROP, "kind": "harness-build-failed", "stage": "go build c08obs", "log": err[-3000:]},
+                      nofail=True, tag="build")
+        return
+    proved = C.prove(res, PROP)
+    if proved and res.tier == "thorough":
+        if not C.coqchk(res, PROP):
+            proved = False
+            res.broken = {"log_tail": "coqchk rejected the .vo closure: " + res.coverage.get("coqchk", {}).get("tail", ""), "errors": []}
+    model, err = C.build_extracted("conv", "ExtractConv.v", "conv_driver.ml")
+    if not model:
+        res.violation({"property": PROP, "kind": "model-build-failed", "stage": "extraction", "log": err[-3000:],
+                       "broken": getattr(res, "broken", None)}, nofail=True, tag="extract")
+        return
+    os.makedirs(C.WORK, exist_ok=True)
+    work = tempfile.mkdtemp(prefix="c08-", dir=C.WORK)
+    try:
+        body(res, obs, model, work, proved)
+    finally:
+        shutil.rmtree(work, ignore_errors=True)
+
+
+UNSUPPORTED = [{"k": "chan"}, {"k": "func"}, {"k": "complex"}, {"k": "mapint"}]
+
+
+def body(res, obs, model, work, proved):
+    tier = res.tier
+    rng = C.Rng(res.seed)
+    cov = res.coverage
+    n_types = 700 if tier == "quick" else 17000
+    per_type = 3
+    known = {k.get("class"): k for k in load_known() if k.get("class")}
+    cases = gen_cases(rng, n_types, per_type)
+    enc = [encode_case(c) for c in cases]
+    keep = [(c, e) for c, e in zip(cases, enc) if e[0] is not None]
+    for c, e in keep:
+        c["meta"]["src"] = e[2]
+    C.log("C08: %d cases generated" % len(keep))
+    go = run_lines(obs, [e[0] for c, e in keep], work, "go")
+    mo = run_lines(model, [e[1] for c, e in keep], work, "mo")
+    C.log("C08: implementation and model runs done")
+    if len(go) != len(keep) or len(mo) != len(keep):
+        res.violation({"property": PROP, "kind": "harness-run-failed", "stage": "line counts", "go": len(go), "model": len(mo),
+                       "cases": len(keep)}, nofail=True, tag="run")
+        return
+    # types outside the quantifier: rejected with an error or with a panic?
+    uns_lines = [json.dumps({"cells": [], "globals": [{"t": t, "v": "nil"}], "src": "31"}) for t in UNSUPPORTED]
+    uns = [json.loads(x) for x in run_lines(obs, uns_lines, work, "uns", jobs=1)]
+
+    corr = []
+    oracle_viol = []
+    known_hits = {}
+    stats = {"cases": len(keep), "kinds": {}, "outcomes": {}, "model_unsup": 0, "bad": 0}
+    nontrivial = set()
+    samples = []
+
+    def note(case, g, v):
+        aspect, why, cls = v
+        if cls is not None and cls in known:
+            d = known_hits.setdefault(cls, {"n": 0, "examples": []})
+            d["n"] += 1
+            if len(d["examples"]) < 3:
+                d["examples"].append({"script": case["meta"].get("src"), "why": why})
+        else:
+            oracle_viol.append({"property": PROP, "kind": "oracle-violation", "aspect": aspect, "why": why,
+                                "case_kind": case["kind"], "script": case["meta"].get("src"),
+                                "go_case": case["_json"], "model_case": case["_tok"], "impl": g})
+
+    for (c, e), gl, ml in zip(keep, go, mo):
+        c["_json"], c["_tok"] = e[0], e[1]
+        g = json.loads(gl)
+        stats["kinds"][c["kind"]] = stats["kinds"].get(c["kind"], 0) + 1
+        stats["outcomes"][g["outcome"]] = stats["outcomes"].get(g["outcome"], 0) + 1
+        if g["outcome"] == "BADCASE" or ml.startswith("BADINPUT"):
+            stats["bad"] += 1
+            corr.append({"stage": "harness", "script": e[2], "impl": g, "model": ml[:300]})
+            continue
+        for v in oracle(c, g):
+            note(c, g, v)
+        if g["outcome"] == "ok" and c["kind"] in ("set", "call") or c["kind"] in ("global", "field") and len(e[1]) > 60:
+            nontrivial.add(e[1])
+        m = ml.split("\t")
+        if m[0] == "UNSUP":
+            stats["model_unsup"] += 1
+            continue
+        gm = [g["outcome"], g.get("obj") or "-", g.get("iface") or "-", " ".join(x for x in g["cells"] if x != "rec"), " ".join(g["got"])]
+        m = (m + ["", "", "", "", ""])[:5]
+        if g["outcome"] != "ok":
+            gm[1] = gm[2] = "-"
+            gm[4] = ""
+        if m[0] != "ok":
+            m[1] = m[2] = "-"
+            m[4] = ""
+        if gm != m:
+            if len(corr) < 40:
+                which = [["outcome", "object", "interface", "heap", "received"][i] for i in range(5) if gm[i] != m[i]]
+                corr.append({"stage": "convert/" + c["kind"], "differs_in": which, "script": e[2], "model_case": e[1][:1500],
+                             "go_case": e[0][:1500], "impl": gm, "model": m, "impl_raw": g.get("raw", "")})
+        if len(samples) < 10 and len(keep) and (len(samples) * len(keep) // 10) <= keep.index((c, e)) if False else len(samples) < 10 and hash(e[1]) % 97 == 0:
+            samples.append({"kind": c["kind"], "script": e[2], "impl": gm, "model": m})
+    for t, g in zip(UNSUPPORTED, uns):
+        if g["outcome"] in ("panic", "escaped"):
+            case = {"kind": "global", "meta": {"unsupported": True, "src": "WithGlobal of a %s value" % t["k"]}, "cells": [], "globals": [],
+                    "script": ("expr", ("g", 0)), "_json": json.dumps(t), "_tok": ""}
+            raw = g.get("raw", "")
+            cls = "unsupported-type" if "invalid global provided" in raw else None
+            note(case, g, ("no-panic", "a value of unsupported kind %s is rejected by a panic in the caller of Eval: %s" % (t["k"], raw[:120]), cls))
+
+    cov["evaluations"] = len(keep)
+    cov["distinct_nontrivial"] = len(nontrivial)
+    cov["rule"] = ("%d cases: Go types built with reflect (StructOf/SliceOf/ArrayOf/MapOf/PointerTo) to depth 3 over bool, all sized "
+                   "ints/uints, floats, string, byte, time.Time, interface{} and a zoo of 16 declared named types, values incl. zero, nil, "
+                   "extremes; as globals (result object and result.Interface()), as struct fields read through a proxy, written from script "
+                   "literals / from other Go values and read back (Go-side struct state and script-side value), as arguments and results of a "
+                   "zoo of 55 methods; every evaluation under recover; each observation compared with the extracted Gallina model and judged by "
+                   "an independent oracle (documented widening, read-back, exact arguments). Non-trivial = distinct set/call cases that "
+                   "succeeded plus global/field cases of compound types." % len(keep))
+    cov["samples"] = samples
+    cov["correspondence"] = {"differences": len(corr), "stats": stats}
+    cov["input_distribution"] = {"kinds": stats["kinds"], "outcomes": stats["outcomes"]}
+    cov["known_finding_observations"] = {k: v for k, v in known_hits.items()}
+    res.assumptions += [
+        "reflect's own behaviour (assignability, Set/Append/SetMapIndex/Call panics, StructOf) is modelled, not verified; validated by the comparison",
+        "float arithmetic is modelled on IEEE bit patterns for exact conversions only; inexact float32/int conversions are skipped (UNSUP)",
+        "pointer aliasing is modelled for pointers to structs held in harness-owned cells; pointees reached through slices/maps are by-value",
+        "script maps are iterated in random order by the implementation: cases with two failing entries in one map are not generated",
+    ]
+    for cls, d in known_hits.items():
+        res.known_finding("%s [%d observations, e.g. `%s`: %s]" % (known[cls].get("what", cls), d["n"], (d["examples"][0]["script"] or "").replace("\n", "; ")[:80],
+                                                                  d["examples"][0]["why"][:160]))
+    for v in oracle_viol[:int(os.environ.get("C08_MAXV", "10"))]:
+        res.violation(v)
+    if oracle_viol:
+        return
+    if not proved:
+        res.violation({"property": PROP, "kind": "proof-obligation-broken", "theorem_file": "coq/props/C08.v",
+                       "broken": res.broken, "search": "%d cases: no failing input outside the known findings" % len(keep)},
+                      nofail=True, tag="proof")
+        return
+    if corr:
+        res.violation({"property": PROP, "kind": "correspondence-broken", "stage": corr[0].get("stage"),
+                       "first_difference": corr[0], "differences": corr[:10],
+                       "search": "oracle evaluated on all %d implementation runs: no failing input outside the known findings" % len(keep)},
+                      nofail=True, tag="corr")
+
+
+def replay(data):
+    print(json.dumps(data, indent=1)[:6000])
+    obs, err = C.go_build("c08obs")
+    if not obs:
+        print(err)
+        return 2
+    line = data.get("go_case") or (data.get("first_difference") or {}).get("go_case")
+    if line:
+        p = subprocess.run([obs], input=(line + "\n").encode(), stdout=subprocess.PIPE)
+        print(p.stdout.decode())
+    return 0
